@@ -523,7 +523,7 @@ pub fn run(which: Which, tier: Tier) -> i32 {
             // a slice of the unknown-word universe: group/length interplay produces many paths
             uu.retain(|u| u.name.contains("mult2") && u.name.contains("a+ab"));
             universes.extend(uu);
-            max_len = tier.pick(5, 7);
+            max_len = tier.pick(5, 6);
         }
         Which::C03 => {
             universes.extend(u_unk(tier));
